@@ -231,3 +231,126 @@ func rulePruneStatsPairing(c *eng.Ctx) {
 		c.Check(nIns >= 3, rule, "decidePackAction:set-insertions", dp.Pos(), "%d insertions into the remove/ignore/repack sets classified", nIns)
 	}
 }
+
+// ruleKeepOnlyBehindLimit (C10, "with no unused-space tolerance and no repack limit … no blob
+// unreachable from a snapshot"): in the loop over the repack candidates — packs that hold
+// unused blobs or must be rewritten — a pack is left as it is only because one of the two limits
+// was reached: every `stats.Packs.Keep++` in that loop lies behind the true edge of a comparison
+// with opts.MaxRepackBytes or with the result of opts.MaxUnusedBytes. Without limits neither
+// comparison can hold and every candidate is repacked.
+func ruleKeepOnlyBehindLimit(c *eng.Ctx) {
+	const rule = "keep-only-behind-a-limit"
+	dp := c.NeedFn(rule, pkgRepo+".decidePackAction")
+	if dp == nil {
+		return
+	}
+	maxRepackF := c.P.Field(pkgRepo+".PruneOptions", "MaxRepackBytes")
+	var mentionsLimit func(v ssa.Value, d int) bool
+	mentionsLimit = func(v ssa.Value, d int) bool {
+		if d > 6 || v == nil {
+			return false
+		}
+		if maxRepackF != nil && (eng.LoadsField(v, maxRepackF) || func() bool {
+			f, ok := v.(*ssa.Field)
+			return ok && eng.FieldVar(f.X.Type(), f.Field) == maxRepackF
+		}()) {
+			return true
+		}
+		if call := eng.RootCall(v); call != nil && strings.HasSuffix(c.P.CalleeName(call), "MaxUnusedBytes") {
+			return true
+		}
+		switch x := v.(type) {
+		case *ssa.BinOp:
+			return mentionsLimit(x.X, d+1) || mentionsLimit(x.Y, d+1)
+		case *ssa.Convert:
+			return mentionsLimit(x.X, d+1)
+		case *ssa.UnOp:
+			if x.Op == token.MUL {
+				// a local that holds the limit
+				for _, o := range eng.Origins(v, nil) {
+					if o != v && mentionsLimit(o, d+1) {
+						return true
+					}
+				}
+			}
+		}
+		return false
+	}
+	limit := eng.CmpEdges(dp, func(op token.Token, x, y ssa.Value) (bool, bool) {
+		switch op {
+		case token.LSS, token.LEQ, token.GTR, token.GEQ:
+		default:
+			return false, false
+		}
+		if mentionsLimit(x, 0) || mentionsLimit(y, 0) {
+			return true, true
+		}
+		return false, false
+	})
+	// the loop over the candidates: the innermost loop header that dominates a call of the local repack closure
+	var header *ssa.BasicBlock
+	nRepack := 0
+	for _, call := range eng.Calls(dp) {
+		if call.Common().IsInvoke() {
+			continue
+		}
+		isClosure := false
+		if f := call.Common().StaticCallee(); f != nil && f.Parent() == dp {
+			for _, ins := range eng.Calls(f) {
+				if strings.HasSuffix(c.P.CalleeName(ins), "restic.IDSet.Insert") {
+					isClosure = true
+				}
+			}
+		}
+		for _, o := range eng.Origins(call.Common().Value, nil) {
+			if mc, ok := o.(*ssa.MakeClosure); ok {
+				if f, isF := mc.Fn.(*ssa.Function); isF {
+					for _, ins := range eng.Calls(f) {
+						if strings.HasSuffix(c.P.CalleeName(ins), "restic.IDSet.Insert") {
+							isClosure = true
+						}
+					}
+				}
+			}
+		}
+		if !isClosure {
+			continue
+		}
+		nRepack++
+		for _, b := range dp.Blocks {
+			if !b.Dominates(call.Block()) {
+				continue
+			}
+			for _, p := range b.Preds {
+				if b.Dominates(p) && (header == nil || header.Dominates(b)) {
+					header = b
+				}
+			}
+		}
+	}
+	if header == nil || len(limit) == 0 {
+		c.Unk(rule, "decidePackAction:candidate-loop", dp.Pos(), "the loop that repacks candidates (%d repack calls) or the limit comparisons (%d) were not found", nRepack, len(limit))
+		return
+	}
+	n := 0
+	for _, b := range dp.Blocks {
+		if !header.Dominates(b) || b == header {
+			continue
+		}
+		inLoop := eng.FindPath(eng.Loc{B: b, I: 0}, header.Instrs[0], nil) != nil
+		if !inLoop {
+			continue
+		}
+		for _, in := range b.Instrs {
+			st, ok := in.(*ssa.Store)
+			if !ok {
+				continue
+			}
+			if g, nm, isStat := statField(st.Addr); isStat && g == "Packs" && nm == "Keep" {
+				n++
+				c.MustPass(rule, "decidePackAction:candidate-kept→a-limit-was-reached", eng.Loc{B: header, I: 0}, st, eng.NewCut().AddEdges(limit...), "the repack size limit or the tolerated unused size was reached")
+			}
+		}
+	}
+	c.Check(n >= 2 && nRepack >= 2, rule, "decidePackAction:candidate-loop-shape", dp.Pos(), "%d keep decisions and %d repack calls in the candidate loop", n, nRepack)
+}
